@@ -248,7 +248,14 @@ class Exc(object):
                     out |= self.transport_faults()
                 out |= OTHER_RAISES.get(t.name, set())
             elif t.kind == 'bm':
-                out |= BM_RAISES.get(t.name, set())
+                lenient = False
+                errs = [k.value for k in call.keywords if k.arg == 'errors'] + list(call.args[1:2])
+                for e in errs:
+                    if isinstance(e, ast.Constant) and e.value in ('replace', 'ignore', 'backslashreplace',
+                                                                   'surrogateescape'):
+                        lenient = True
+                if not lenient:
+                    out |= BM_RAISES.get(t.name, set())
             elif t.kind == 'builtin':
                 out |= BUILTIN_RAISES.get(t.name, set())
         return out
